@@ -414,6 +414,204 @@ pub fn concurrent_stress(ctx: &Ctx, name: &str, alpha: &[Call], alone: &[Res], t
     "note": "free-running threads (sampling): corroboration only, not counted in the exhaustive bound"})
 }
 
+// ---------------------------------------------------------------------------------------------
+// race harness (executed under miri): two threads run calls of the alphabet concurrently.  miri
+// keeps vector clocks for every memory location: two accesses to one location from two threads,
+// one of them a write, with no synchronisation edge between them, are reported as a data race in
+// ANY execution that performs both -- independently of their timing.  A cache, memo or scratch
+// buffer shared between threads without synchronisation is therefore found deterministically
+// (the free-running stress only finds it when the accesses collide).  The harness also compares
+// every result with the result of the same call made afterwards, alone.
+// ---------------------------------------------------------------------------------------------
+
+/// The (small, hand-written) call list of a property for the race harness: every entry point the
+/// property is about, at a small and at a large depth, two values each -- the interpreter is
+/// ~1000 times slower than native code, and what matters here is that every function runs on both
+/// threads (any unsynchronised shared location it touches is then reported).
+fn race_alphabet(id: &str) -> Vec<Call> {
+  let c = |f: &'static str, u: &[u64], x: &[f64]| Call::new(f, u, x);
+  let pos: [(f64, f64); 2] = [(0.5, 0.25), (4.0, -1.2)];
+  let mut a: Vec<Call> = vec![];
+  match id {
+    "C01" | "C02" => {
+      for d in [0u64, 2, 9, 18, 29] {
+        for p in pos {
+          a.push(c("nested::hash", &[d], &[p.0, p.1]));
+        }
+      }
+    }
+    "C03" => {
+      for (d, h) in [(2u64, 77u64), (18, 12345678901), (18, 5)] {
+        a.push(c("nested::center", &[d, h], &[]));
+        a.push(c("nested::vertices", &[d, h], &[]));
+        a.push(c("nested::vertex", &[d, h, 1], &[]));
+        a.push(c("nested::sph_coo", &[d, h], &[0.25, 0.5]));
+        a.push(c("nested::path_along_cell_edge", &[d, h, 0, 1, 2], &[]));
+        a.push(c("nested::grid", &[d, h, 2], &[]));
+      }
+      a.push(c("nested::hash_with_dxdy", &[18], &[0.5, 0.25]));
+    }
+    "C04" => {
+      for (d, h) in [(2u64, 77u64), (2, 0), (18, 12345678901), (18, 5), (29, 1u64 << 58)] {
+        a.push(c("nested::neighbours", &[d, h], &[]));
+        a.push(c("nested::neighbour", &[d, h, 1], &[]));
+        a.push(c("nested::neighbour", &[d, h, 6], &[]));
+      }
+    }
+    "C05" | "C06" => {
+      for (d, r) in [(2u64, 0.3), (4, 0.05), (6, 0.003)] {
+        for p in pos {
+          a.push(c("nested::cone_coverage_approx", &[d], &[p.0, p.1, r]));
+        }
+        a.push(c("nested::cone_coverage_approx_custom", &[d, 2], &[0.5, 0.25, r]));
+        a.push(c("nested::cone_coverage_approx_flat", &[d], &[4.0, -1.2, r]));
+      }
+    }
+    "C07" | "C08" | "C09" => {
+      const MARK: u64 = u64::MAX;
+      let e = |d: u64, h: u64, f: u64| (d << 58) ^ (h << 1) ^ f;
+      let full = if id == "C07" { 1 } else { 0 };
+      let x: Vec<u64> = vec![3, e(1, 5, 1), e(2, 24, 1), e(3, 101, full), e(3, 103, 1)];
+      let y: Vec<u64> = vec![2, e(2, 21, 1), e(2, 25, full), e(1, 9, 1)];
+      for op in 0..4u64 {
+        let mut w = vec![op];
+        w.extend(&x);
+        w.push(MARK);
+        w.extend(&y);
+        a.push(c("bmoc::op", &w, &[]));
+        let mut w2 = vec![op];
+        w2.extend(&y);
+        w2.push(MARK);
+        w2.extend(&x);
+        a.push(c("bmoc::op", &w2, &[]));
+      }
+      a.push(c("nested::cone_coverage_approx", &[3], &[0.5, 0.25, 0.2]));
+    }
+    "C10" => {
+      for (d, h) in [(2u64, 77u64), (2, 3), (12, 150_000_000), (18, 12345678901), (29, 1u64 << 58)] {
+        a.push(c("nested::to_ring", &[d, h], &[]));
+        a.push(c("nested::from_ring", &[d, h], &[]));
+      }
+    }
+    "C11" => {
+      for (n, h) in [(1u64, 5u64), (3, 50), (1000, 7_000_000), (100_003, 70_000_000_000)] {
+        a.push(c("ring::center", &[n, h], &[]));
+        a.push(c("ring::vertices", &[n, h], &[]));
+        a.push(c("ring::sph_coo", &[n, h], &[0.25, 0.5]));
+        a.push(c("ring::hash", &[n], &[0.5, 0.25]));
+        a.push(c("ring::hash_with_dxdy", &[n], &[4.0, -1.2]));
+      }
+    }
+    "C12" => {
+      for d in [2u64, 5] {
+        for exact in [0u64, 1] {
+          a.push(c("nested::polygon_coverage", &[d, exact], &[0.5, 0.2, 0.7, 0.25, 0.6, 0.4]));
+          a.push(c("nested::polygon_coverage", &[d, exact], &[4.0, -1.2, 4.3, -1.25, 4.2, -1.0, 3.9, -1.05]));
+        }
+      }
+    }
+    "C13" => {
+      for (d, aa, b) in [(2u64, 0.3, 0.1), (5, 0.05, 0.05), (6, 0.004, 0.002)] {
+        for p in pos {
+          a.push(c("nested::elliptical_cone_coverage", &[d], &[p.0, p.1, aa, b, 0.7]));
+        }
+        a.push(c("nested::elliptical_cone_coverage_custom", &[d, 1], &[0.5, 0.25, aa, b, 0.7]));
+      }
+    }
+    "C14" => {
+      for (d, h, dd) in [(2u64, 77u64, 2u64), (2, 0, 3), (18, 12345678901, 2), (20, 5, 3)] {
+        a.push(c("nested::internal_edge", &[d, h, dd], &[]));
+        a.push(c("nested::internal_edge_sorted", &[d, h, dd], &[]));
+        a.push(c("nested::external_edge", &[d, h, dd], &[]));
+        a.push(c("nested::external_edge_sorted", &[d, h, dd], &[]));
+      }
+    }
+    "C16" => {
+      for r in [0.5, 0.01, 1e-6] {
+        a.push(c("best_starting_depth", &[], &[r]));
+      }
+      for d in [0u64, 3, 12, 29] {
+        for p in pos {
+          a.push(c("largest_center_to_vertex_distance", &[d], &[p.0, p.1]));
+          a.push(c("largest_center_to_vertex_distance_with_radius", &[d], &[p.0, p.1, 0.1]));
+        }
+        a.push(c("largest_center_to_vertex_distances_with_radius", &[d, (d + 3).min(29)], &[0.5, 0.25, 0.1]));
+      }
+    }
+    "C17" => {
+      for p in [(0.5, 0.25), (4.0, -1.2), (6.0, 1.5), (0.0, 0.0)] {
+        a.push(c("proj", &[], &[p.0, p.1]));
+        a.push(c("unproj", &[], &[p.0, p.1]));
+        a.push(c("base_cell_from_proj_coo", &[], &[p.0, p.1]));
+      }
+    }
+    "C18" => {
+      for d in [2u64, 8, 12, 16, 18, 29] {
+        let m = (1u64 << d) - 1;
+        a.push(c("zoc::ij2h", &[d, 0x2F51A7 & m, 0x10E8C3 & m], &[]));
+        a.push(c("zoc::h2ij", &[d, 0x2F51A710E8C3 & ((1u64 << (2 * d)) - 1)], &[]));
+        a.push(c("zoc::i02h", &[d, 0x2F51A7 & m], &[]));
+        a.push(c("zoc::oj2h", &[d, 0x10E8C3 & m], &[]));
+        a.push(c("nested::to_uniq", &[d, 5], &[]));
+        a.push(c("nested::to_uniq_ivoa", &[d, 5], &[]));
+      }
+      a.push(c("nested::from_uniq", &[(16u64 << 36) | 12345], &[]));
+      a.push(c("nested::from_uniq_ivoa", &[(4u64 << 36) + 12345], &[]));
+    }
+    "C19" => {
+      for d in [0u64, 2, 9, 18, 29] {
+        for p in pos {
+          a.push(c("nested::bilinear_interpolation", &[d], &[p.0, p.1]));
+        }
+      }
+    }
+    _ => {}
+  }
+  a
+}
+
+pub fn race_harness(id: &str, variant: usize, time_only: bool) -> i32 {
+  let t_start = std::time::Instant::now();
+  let alpha = race_alphabet(id);
+  if alpha.is_empty() {
+    println!("RACE {} no alphabet", id);
+    return 0;
+  }
+  if time_only {
+    for c in &alpha {
+      let t0 = std::time::Instant::now();
+      let _ = run(c);
+      println!("{:8.3}s {}", t0.elapsed().as_secs_f64(), c.describe());
+    }
+    println!("total {:.2}s", t_start.elapsed().as_secs_f64());
+    return 0;
+  }
+  let n = alpha.len();
+  // thread orders: variant 0 = (forward, backward), 1 = (forward, forward), 2 = (forward, rotated by n/2), ...
+  let order = |t: usize| -> Vec<usize> {
+    match (variant % 3, t) {
+      (_, 0) => (0..n).collect(),
+      (0, _) => (0..n).rev().collect(),
+      (1, _) => (0..n).collect(),
+      _ => (0..n).map(|k| (k + n / 2) % n).collect(),
+    }
+  };
+  let results: Vec<Vec<(usize, Res)>> = std::thread::scope(|s| {
+    let hs: Vec<_> = (0..2).map(|t| { let o = order(t); let a = &alpha; s.spawn(move || o.into_iter().map(|k| (k, run(&a[k]))).collect::<Vec<_>>()) }).collect();
+    hs.into_iter().map(|h| h.join().expect("race harness thread died")).collect()
+  });
+  let mut bad = 0;
+  for r in results.iter().flatten() {
+    let alone = run(&alpha[r.0]);
+    if alone != r.1 {
+      bad += 1;
+      println!("RACE-MISMATCH {} {}: concurrently {} / alone {}", id, alpha[r.0].describe(), show(&r.1), show(&alone));
+    }
+  }
+  println!("RACE {} variant {} calls {} mismatches {}", id, variant, 2 * n, bad);
+  if bad > 0 { 1 } else { 0 }
+}
+
 fn gcd(a: usize, b: usize) -> usize {
   if b == 0 { a } else { gcd(b, a % b) }
 }
